@@ -84,6 +84,7 @@ def _work(payload):
     tags = {}
     cnt = 0
     nontriv = 0
+    hist = core.History()
     for n, conn, strs, fmt in payload:
         gens = M.parse_gens(strs)
         cnt += 1
@@ -94,8 +95,12 @@ def _work(payload):
         tags[tag] = tags.get(tag, 0) + 1
         if not tag.startswith("valid"):
             nontriv += 1
-        for m in msgs[:2]:
-            fails.append((m, {"kind": "input", "n": n, "conn": conn, "gens": list(strs), "fmt": fmt}))
+        case = {"kind": "input", "n": n, "conn": conn, "gens": list(strs), "fmt": fmt}
+        if msgs:
+            cj = hist.attach(case)
+            for m in msgs[:2]:
+                fails.append((m, cj))
+        hist.add(case)
     return cnt, nontriv, tags, fails
 
 
